@@ -40,7 +40,7 @@ VARIABLES mq,       \* capacity of this connection
           disc,     \* the pump has seen the disconnect (what a sender looks at)
           popW,     \* receiver's waiter: "none" | "pending" | "set"
           putW,     \* pump's waiter for space: "none" | "pending" | "set"
-          apc,      \* application: "idle" | "recvLoop" | "recvWait" | "recvRaw" | "sending" | "closing" | "closed"
+          apc,      \* application: "idle" | "recvLoop" | "recvWait" | "recvRaw" | "sending" | "closeSending" | "closing" | "closed"
           wstate,   \* what the application has been told: "accepted" | "closed"
           taken,    \* ghost: events handed to the application by receive, in order
           via,      \* ghost: how the application first learnt of the disconnect: "none" | "recv" | "send"
@@ -186,13 +186,27 @@ SendRet ==         \* the server's send() returned
     /\ UNCHANGED <<mq, all, srv, avail, pull, ppc, pcancel, inhand, queue, disc, popW, putW, wstate, taken, via,
                    nops, ncancel, pulls>>
 
-AppClose ==        \* close(): first cancel the pump ...
+(* close(), as repaired: a socket that is closed already (the application was told, or the pump
+   has seen the disconnect) only stops the pump; otherwise the close event goes to the server
+   FIRST, the state becomes closed, and only then is the pump cancelled and awaited (cancelling
+   it before a send that may fail would drop the event in the pump's hand).  So between the wire
+   close and the return of close() the pump may still run and a pull may still be outstanding;
+   NothingLeftRunning speaks about the time after close() has returned. *)
+AppClose ==
     /\ apc = "idle" /\ nops < MaxOps /\ nops' = nops + 1
-    /\ apc' = "closing" /\ pcancel' = (ppc \in Live)
+    /\ IF wstate = "closed" \/ disc
+         THEN apc' = "closing" /\ pcancel' = (ppc \in Live)
+         ELSE apc' = "closeSending" /\ UNCHANGED pcancel
     /\ UNCHANGED <<mq, all, srv, avail, pull, ppc, inhand, queue, disc, popW, putW, wstate, taken, via, last,
                    ncancel, pulls>>
 
-CloseFinish ==     \* ... wait until it is gone, then close towards the server (unless already closed)
+CloseSent ==       \* the server's send() of the close event returned: state closed, now cancel the pump
+    /\ apc = "closeSending"
+    /\ apc' = "closing" /\ wstate' = "closed" /\ pcancel' = (ppc \in Live)
+    /\ UNCHANGED <<mq, all, srv, avail, pull, ppc, inhand, queue, disc, popW, putW, taken, via, last,
+                   nops, ncancel, pulls>>
+
+CloseFinish ==     \* ... wait until the pump is gone, then return
     /\ apc = "closing" /\ (AwaitStop => ~pcancel)
     /\ apc' = "closed" /\ wstate' = "closed" /\ last' = Res("close", OKR)
     /\ UNCHANGED <<mq, all, srv, avail, pull, ppc, pcancel, inhand, queue, disc, popW, putW, taken, via,
@@ -202,7 +216,7 @@ CloseFinish ==     \* ... wait until it is gone, then close towards the server (
 Returned == apc' \in {"idle", "closed"} /\ (apc \notin {"idle", "closed"} \/ nops' # nops)
 
 PumpStep == PumpLoop \/ PumpGot \/ PumpCheck \/ PumpWake \/ PumpCancelled
-AppStep  == RecvLoop \/ RecvWake \/ RecvRawRet \/ SendRet \/ CloseFinish
+AppStep  == RecvLoop \/ RecvWake \/ RecvRawRet \/ SendRet \/ CloseSent \/ CloseFinish
 Internal == PumpStep \/ AppStep
 External == SrvArrive \/ AppRecv \/ AppSend \/ AppClose \/ CancelRecv
 Next == Internal \/ External
@@ -214,7 +228,7 @@ FairSpec == Spec /\ WF_vars(PumpStep) /\ WF_vars(AppStep) /\ WF_vars(SrvArrive)
 PumpBusy == \/ ~pcancel /\ (ppc \in {"loop", "checkSpace"} \/ (ppc = "awaitRecv" /\ pull = "pump" /\ avail # <<>>)
                              \/ (ppc = "waitSpace" /\ putW = "set"))
             \/ pcancel /\ ppc \in Live
-AppBusy  == \/ apc \in {"recvLoop", "sending"}
+AppBusy  == \/ apc \in {"recvLoop", "sending", "closeSending"}
             \/ apc = "recvWait" /\ (popW = "set" \/ ppc = "done")
             \/ apc = "recvRaw" /\ pull = "app" /\ avail # <<>>
             \/ apc = "closing" /\ (AwaitStop => ~pcancel)
@@ -227,7 +241,7 @@ TypeOK ==
     /\ pcancel \in BOOLEAN /\ disc \in BOOLEAN
     /\ inhand \in {NIL} \cup 0..NMsg
     /\ popW \in {"none", "pending", "set"} /\ putW \in {"none", "pending", "set"}
-    /\ apc \in {"idle", "recvLoop", "recvWait", "recvRaw", "sending", "closing", "closed"}
+    /\ apc \in {"idle", "recvLoop", "recvWait", "recvRaw", "sending", "closeSending", "closing", "closed"}
     /\ wstate \in {"accepted", "closed"} /\ via \in {"none", "recv", "send"}
     /\ nops \in 0..MaxOps /\ ncancel \in 0..MaxCancel
 
@@ -267,6 +281,6 @@ RecvProgress == Waiting ~> (~Waiting \/ NothingLeft)
 (* the sender's view: once what precedes the disconnect fits, the flag is raised without any receive *)
 HasDisc == Len(all) > 0 /\ all[Len(all)] = DISC
 SenderLearnsEventually ==
-    [](((mq > 0 /\ HasDisc /\ Len(all) - 1 - Len(taken) <= mq) => <>(disc \/ apc \in {"closing", "closed"})))
-CloseCompletes == (apc = "closing") ~> (apc = "closed")
+    [](((mq > 0 /\ HasDisc /\ Len(all) - 1 - Len(taken) <= mq) => <>(disc \/ apc \in {"closeSending", "closing", "closed"})))
+CloseCompletes == (apc \in {"closeSending", "closing"}) ~> (apc = "closed")
 =========================================================================
